@@ -230,14 +230,14 @@ Qed.
 
 Definition ientries_ok (l : list ientry) : Prop := Forall (fun e : ientry => fval_ok (snd e)) l.
 
-Lemma parse_irecord_ok puf fs : forall c i ents taken r,
-  parse_irecord puf fs c i = Ok (ents, taken) r ->
+Lemma parse_irecord_ok puf fs : forall c i ents taken vt r,
+  parse_irecord puf fs c i = Ok (ents, (taken, vt)) r ->
   exists pre, i = pre ++ r /\ N.of_nat (length pre) = taken /\ ientries_ok ents.
 Proof.
-  induction fs as [|f fs IH]; intros c i ents taken r H; cbn [parse_irecord] in H.
+  induction fs as [|f fs IH]; intros c i ents taken vt r H; cbn [parse_irecord] in H.
   - inversion H; subst. exists []. repeat split; constructor.
   - destruct (parse_ivalue puf f i) as [v r1|e] eqn:E1; [|discriminate].
-    destruct (parse_irecord puf fs (c + 1) r1) as [[l t] r2|e] eqn:E2; [|discriminate].
+    destruct (parse_irecord puf fs (c + 1) r1) as [[l [t vt']] r2|e] eqn:E2; [|discriminate].
     inversion H; subst. apply parse_ivalue_ok in E1. destruct E1 as [p1 [Hi [HL1 Hok]]].
     apply IH in E2. destruct E2 as [p2 [-> [HL2 Hoks]]].
     exists (p1 ++ p2). rewrite Hi at 1. rewrite <- app_assoc. split; [reflexivity|].
@@ -248,7 +248,7 @@ Lemma parse_irecord_no_fuel puf fs : forall c i, parse_irecord puf fs c i <> Err
 Proof.
   induction fs as [|f fs IH]; intros c i; cbn [parse_irecord]; [discriminate|].
   pose proof (parse_ivalue_no_fuel puf f i). destruct (parse_ivalue puf f i) as [v r|e]; [|congruence].
-  specialize (IH (c + 1)%N r). destruct (parse_irecord puf fs (c + 1) r) as [[l t] r'|e]; [discriminate|congruence].
+  specialize (IH (c + 1)%N r). destruct (parse_irecord puf fs (c + 1) r) as [[l [t vt]] r'|e]; [discriminate|congruence].
 Qed.
 
 (* the record loop: each further pass needs taken > 0, so it strictly shortens the input *)
@@ -256,9 +256,9 @@ Lemma parse_irecords_no_fuel puf fs : forall fuel i, (length i < fuel)%nat -> pa
 Proof.
   induction fuel as [|fuel IH]; intros i H; [lia|]. cbn [parse_irecords].
   pose proof (parse_irecord_no_fuel puf fs 0%N i).
-  destruct (parse_irecord puf fs 0 i) as [[ents taken] r|e] eqn:E; [|congruence].
+  destruct (parse_irecord puf fs 0 i) as [[ents [taken vt]] r|e] eqn:E; [|congruence].
   destruct (0 <? taken)%N eqn:Ht; cbn [andb]; [|discriminate].
-  destruct (has_at_least taken r); [|discriminate].
+  destruct (has_at_least _ r); [|discriminate].
   apply parse_irecord_ok in E. destruct E as [pre [-> [HL _]]]. apply N.ltb_lt in Ht.
   rewrite app_length in H. specialize (IH r ltac:(lia)).
   destruct (parse_irecords fuel puf fs r); [discriminate|congruence].
@@ -268,9 +268,9 @@ Lemma parse_irecords_ok puf fs : forall fuel i ents r,
   parse_irecords fuel puf fs i = Ok ents r -> ientries_ok ents.
 Proof.
   induction fuel as [|fuel IH]; intros i ents r H; cbn [parse_irecords] in H; [discriminate|].
-  destruct (parse_irecord puf fs 0 i) as [[e1 taken] r1|e] eqn:E; [|discriminate].
+  destruct (parse_irecord puf fs 0 i) as [[e1 [taken vt]] r1|e] eqn:E; [|discriminate].
   apply parse_irecord_ok in E. destruct E as [pre [_ [_ Hok]]].
-  destruct ((0 <? taken)%N && has_at_least taken r1).
+  destruct ((0 <? taken)%N && has_at_least _ r1).
   - destruct (parse_irecords fuel puf fs r1) as [more r2|e] eqn:E2; [|discriminate]. inversion H; subst.
     apply Forall_app. split; [exact Hok|]. eapply IH; eauto.
   - inversion H; subst. exact Hok.
